@@ -398,6 +398,13 @@ fn check_roundtrip(c: &mut Ctx, p: &Pczt, stage: &str, made: &Made) {
         // Anchors first, through the public accessors (the value tree elides a bundle that is
         // empty up to an all-zero anchor, which would hide exactly this difference).
         let anchors = |x: &Pczt| [("sapling", *x.sapling().anchor()), ("orchard", *x.orchard().anchor()), ("ironwood", *x.ironwood().anchor())];
+        // does the bundle carry anything besides its anchor? (the known loss of an all-zero anchor
+        // concerns action-less bundles only)
+        let populated = |x: &Pczt, pool: &str| match pool {
+            "sapling" => !x.sapling().spends().is_empty() || !x.sapling().outputs().is_empty(),
+            "orchard" => !x.orchard().actions().is_empty(),
+            _ => !x.ironwood().actions().is_empty(),
+        };
         let mut anchor_changed = false;
         for ((pool, a), (_, bq)) in anchors(p).into_iter().zip(anchors(&q)) {
             let b = bq;
@@ -407,6 +414,7 @@ fn check_roundtrip(c: &mut Ctx, p: &Pczt, stage: &str, made: &Made) {
             anchor_changed = true;
             let class = match (a, b) {
                 (None, Some(z)) if z == [0u8; 32] => format!("roundtrip:absent-anchor-becomes-zero-anchor:{pool}"),
+                (Some(z), None) if z == [0u8; 32] && populated(p, pool) => format!("roundtrip:zero-anchor-of-a-populated-bundle-becomes-absent:{pool}"),
                 (Some(z), None) if z == [0u8; 32] => format!("roundtrip:zero-anchor-becomes-absent:{pool}"),
                 _ => format!("roundtrip:value-changed:{name}:{pool}.anchor"),
             };
